@@ -126,7 +126,7 @@ class Interp:
             if rest and rest[0][0] == "filter":
                 raise Unspec("filter directly after a variable")     # known finding (C15)
             if rest and rest[0][0] == "keysfilter":
-                raise Unspec("keys filter")
+                raise Unspec("keys filter directly after a variable")
             out = []
             for r in vals:
                 if isinstance(r, U):
@@ -210,6 +210,16 @@ class Interp:
                     return self.walk(rest, v[n], scope, "idx")
                 return [UNRES]
             return [UNRES]
+        if t == "keysfilter":
+            # documented map-key filter `[ keys == | != | in | not in <rhs> ]`: keeps the values of the keys that satisfy the comparison
+            if not isinstance(v, dict):
+                return [UNRES]
+            if rest and rest[0][0] in ("filter", "keysfilter"):
+                raise Unspec("filter after a keys filter")
+            out = []
+            for k in self.keys_select(p[1], p[2], list(v), scope):
+                out.extend(self.walk(rest, v[k], scope, "key"))
+            return out
         if t == "filter":
             cnf = p[1]
             if isinstance(v, list):
@@ -232,6 +242,65 @@ class Interp:
                 raise Unspec("filter on a map after " + str(prev))
             raise Unspec("filter on a scalar")
         raise Unspec("query part " + t)
+
+    def keys_select(self, op, rhs, keys, scope):
+        neg = op in ("!=", "not in")
+        base = "in" if op in ("in", "not in") else "=="
+        if rhs[0] == "lit":
+            vals, lit = [rhs[1]], True
+        elif rhs[0] == "var":
+            rv, lit = self.var_results(rhs[1], scope)
+            if any(isinstance(r, U) for r in rv):
+                raise Unspec("unresolved value on the right of a keys filter")
+            vals = [r.v for r in rv]
+        else:
+            raise Unspec("right-hand side of a keys filter")
+        if not vals:
+            raise Unspec("empty right-hand side of a keys filter")
+
+        def one(k, m):
+            # key k against ONE scalar / regex member: True, False, or None for "not comparable" (another type)
+            if isinstance(m, str):
+                return k == m
+            if is_regex(m):
+                try:
+                    return re.search(m["$re"], k) is not None
+                except re.error:
+                    raise Unspec("regex dialect")
+            return None
+
+        if len(vals) > 1:
+            # several values (a query-bound variable): the key must equal one of them
+            if neg:
+                raise Unspec("negated keys filter against several values")
+            if any(isinstance(x, (list, dict)) and not is_regex(x) for x in vals):
+                raise Unspec("keys filter against collections")
+            if any(isinstance(x, str) and k != x and k in x for k in keys for x in vals):
+                raise Unspec("key is a proper substring of a value")      # the tool's `in` on two strings is containment
+            return [k for k in keys if any(one(k, x) for x in vals)]
+        x = vals[0]
+        if isinstance(x, list):
+            if base == "==":
+                if len(x) == 1 and lit:
+                    raise Unspec("single-element list literal")
+                return []                         # a string never equals / differs-comparably from a list
+            if any(isinstance(m, (list, dict)) and not is_regex(m) for m in x):
+                raise Unspec("in against a list of collections")
+            return [k for k in keys if any(one(k, m) for m in x) != neg]
+        if isinstance(x, dict) and not is_regex(x):
+            return []
+        if base == "in":
+            if isinstance(x, str):
+                if any(k != x and k in x for k in keys):
+                    raise Unspec("key is a proper substring of the value")
+            elif not is_regex(x):
+                return []
+        out = []
+        for k in keys:
+            r = one(k, x)
+            if r is not None and r != neg:
+                out.append(k)
+        return out
 
     # ------------------------------------------------------------------ clauses
     def unary(self, op, r):
